@@ -11,6 +11,7 @@ must give the same rule -> status map.
 The documented exception (emptiness test on a bare variable tests the result set) is skipped.
 """
 import json
+import re
 import time
 
 from .. import core, gen, obs
@@ -122,6 +123,20 @@ def transforms(rng, f, maxn=12):
                             hs = sites(hyp)[si]
                             hs["node"]["q"] = gen.clone(prefix) + gen.clone(rest[1:])
                         yield "prefix", sc[0], "prefix:next=%s" % nxt, g, hyp
+        # ---- keyvar: a key of the query taken from a variable (documented interpolation `a.%k`) == the key written in place
+        q = node0["q"]
+        cand = [k for k in range(1, len(q)) if q[k][0] == "key" and not q[k][1].lstrip("-").isdigit() and q[k - 1][0] in ("key", "all", "allidx", "idx", "this")
+                and (k == len(q) - 1 or q[k + 1][0] in ("key", "allidx"))]
+        if cand and s0["vis"]:
+            k = rng.choice(cand)
+            for level in range(len(s0["vis"])):
+                g = gen.clone(f)
+                s = sites(g)[si]
+                sc = s["vis"][level]
+                s["node"]["q"][k] = ["varkey", "tvk"]
+                add_let(sc, "tvk", ["lit", q[k][1]])
+                n += 1
+                yield "keyvar", sc[0], "keyvar:%s@%s" % ("last" if k == len(q) - 1 else "inner", sc[0]), g, None
         # ---- shadow: needs a clause with literal rhs inside a block and another one outside
         if s0["kind"] == "clause" and node0.get("rhs") and node0["rhs"][0] == "lit" and len(s0["vis"]) >= 2 and s0["vis"][-1][0] == "block":
             outer = [j for j, o in enumerate(base_sites) if o["kind"] == "clause" and o["node"].get("rhs") and o["node"]["rhs"][0] == "lit"
@@ -278,6 +293,57 @@ def shard(ctx):
                 what = "abstraction step %s changed verdicts (base, variant) %s" % (detail, diff)
             ctx.violation(sig, "%s\n--- base\n%s--- variant\n%s--- doc %s" % (what, base_text, text, docs[:300]),
                           {"kind": "pair", "a": base_text, "b": text, "data": docs})
+    # ---- key interpolation matrix: `x.%k OP` == `x.<key> OP` for every unary operator / comparison x value class x scope of the let
+    if ctx.mine(2):
+        kdoc = {"x": {"el": [], "em": {}, "es": "", "l": [1, 2], "m": {"a": 1}, "s": "ab", "n": 5, "nul": None, "b": True,
+                      "le": [[], [1]], "lm": [{"a": 1}, {}]},
+                "xs": [{"k": []}, {"k": [1]}, {"q": 1}]}
+        kdocs = json.dumps(kdoc)
+        ops = ["exists", "empty", "is_list", "is_struct", "is_string", "is_int", "is_null", "is_bool", "== 5", "== []", "in [5, \"ab\"]", "== /a/"]
+        for key in list(kdoc["x"]) + ["zz_missing"]:
+            names, lines = [], []
+            for oi, op in enumerate(ops):
+                for neg in ("", "not ", "!"):
+                    if neg == "!" and not op[0].isalpha():
+                        continue
+                    sp = (neg + op) if op[0].isalpha() and neg == "!" else op
+                    pre = neg if neg == "not " else ""
+                    tag = "%d%s" % (oi, {"": "p", "not ": "n", "!": "b"}[neg])
+                    lines.append("rule a%s {\n    %sx.%s %s\n}\n" % (tag, pre, key, sp))
+                    lines.append("rule f%s {\n    %sx.%%kf %s\n}\n" % (tag, pre, sp))
+                    lines.append("rule r%s {\n    let kr = \"%s\"\n    %sx.%%kr %s\n}\n" % (tag, key, pre, sp))
+                    lines.append("rule b%s {\n    x {\n        let kb = \"%s\"\n        %sthis.%%kb %s\n    }\n}\n" % (tag, key, pre, sp))
+                    lines.append("rule s%s {\n    %ssome xs[*].%%ks %s\n}\nrule t%s {\n    %ssome xs[*].k %s\n}\n" % (tag, pre, sp, tag, pre, sp))
+                    names.append(tag)
+            text = "let kf = \"%s\"\nlet ks = \"k\"\n" % key + "".join(lines)
+            res = ctx.w.run({"k": "rc", "data": kdocs, "rules": text, "verbose": False})
+            kind, st, _ = obs.rc_statuses(res)
+            ctx.res.cases += 1
+            if kind != "ok":
+                # one erroring clause hides the others: evaluate the groups one by one
+                st = {}
+                for tag in names:
+                    sub = "let kf = \"%s\"\nlet ks = \"k\"\n" % key + "".join(l for l in lines if re.match(r"rule [afrbst]%s " % re.escape(tag), l))
+                    r1 = ctx.w.run({"k": "rc", "data": kdocs, "rules": sub, "verbose": False})
+                    k1, s1, _ = obs.rc_statuses(r1)
+                    if k1 == "ok":
+                        st.update(s1)
+                    else:
+                        for pfx in "afrbst":
+                            st[pfx + tag] = "ERR"
+            for tag in names:
+                base_st = st.get("a" + tag)
+                for pfx, where in (("f", "file"), ("r", "rule"), ("b", "block")):
+                    ctx.res.counts["keyvar-matrix"] += 1
+                    ctx.res.distinct.add(("keyvar-matrix", where, tag, base_st))
+                    if st.get(pfx + tag) != base_st:
+                        ctx.violation("keyvar:matrix:%s" % where, "`x.%%k` with k = \"%s\" bound at %s level gives %s, `x.%s` gives %s (clause #%s)" % (key, where, st.get(pfx + tag), key, base_st, tag),
+                                      {"kind": "pair", "a": "".join(l for l in lines if l.startswith("rule a%s " % tag)),
+                                       "b": "let kf = \"%s\"\n" % key + "".join(l for l in lines if l.startswith("rule %s%s " % (pfx, tag))), "data": kdocs,
+                                       "map": {pfx + tag: "a" + tag}})
+                if st.get("s" + tag) != st.get("t" + tag):
+                    ctx.violation("keyvar:matrix:some", "`some xs[*].%%k` gives %s, `some xs[*].k` gives %s (clause #%s)" % (st.get("s" + tag), st.get("t" + tag), tag),
+                                  {"kind": "pair", "a": "", "b": text, "data": kdocs, "map": {"s" + tag: "t" + tag}})
     # ---- every reference to a variable sees the same value (file / rule / block level; query, `some` query,
     #      filtered query, literal list and function-call bindings)
     n3 = 120 if ctx.quick else 4000
@@ -380,6 +446,14 @@ def replay(case, w):
             return True, "error"
         got = [st.get(n) for n in case["names"]]
         return len(set(got)) == 1, str(got)
+    if case.get("map"):
+        # names in b whose status must equal the status of a name in a (or in b itself when a is empty)
+        sb, _ = status_map(w, case["b"], case["data"])
+        sa = status_map(w, case["a"], case["data"])[0] if case["a"] else sb
+        if not isinstance(sa, dict) or not isinstance(sb, dict):
+            return (not isinstance(sa, dict)) and (not isinstance(sb, dict)), "a=%s b=%s" % (sa, sb)
+        bad = {k: (sb.get(k), sa.get(v)) for k, v in case["map"].items() if sb.get(k) != sa.get(v)}
+        return not bad, str(bad)
     sa, _ = status_map(w, case["a"], case["data"])
     sb, _ = status_map(w, case["b"], case["data"])
     if case.get("only") and isinstance(sa, dict) and isinstance(sb, dict):
